@@ -210,7 +210,7 @@ func PanicSite(stack string) string {
 	for _, l := range lines {
 		l = strings.TrimSpace(l)
 		if strings.HasPrefix(l, "github.com/hnakamur/whispertool") {
-			if i := strings.Index(l, "("); i > 0 {
+			if i := strings.LastIndex(l, "("); i > 0 {
 				l = l[:i]
 			}
 			return strings.TrimPrefix(l, "github.com/hnakamur/")
